@@ -255,6 +255,9 @@ pub struct Device {
     pub al_script_for: BTreeMap<u8, AlScript>,
     /// INIT->PREOP needs configured mailbox sync managers when a mailbox exists.
     pub al_check_mailbox: bool,
+    /// The mailbox layout the device insists on (receive offset, receive size, send offset, send
+    /// size): sync managers that differ are refused with status code 0x0016 on INIT -> PRE-OP.
+    pub mailbox_expect: Option<[u16; 4]>,
     /// ESC "device emulation" (no application controller, PDI control bit 8 = EEPROM word 0 bit 8):
     /// AL status mirrors AL control, including the acknowledge bit which then reads back as the
     /// error indication, and any state value is accepted. Loaded from the EEPROM at power on.
@@ -354,6 +357,7 @@ impl Device {
             al_script: AlScript::default(),
             al_script_for: BTreeMap::new(),
             al_check_mailbox: true,
+            mailbox_expect: None,
             al_emulation: false,
             dl_status_base: 0x0003,
             dl_status_override: None,
@@ -1007,6 +1011,15 @@ impl Device {
                 && (self.mailbox_sm(1).is_none() || self.mailbox_sm(0).is_none())
             {
                 return AlOutcome::Refused(0x0016);
+            }
+            if cur == al::INIT && matches!(req, al::PREOP | al::BOOT) && self.al_check_mailbox && self.mailbox.is_some() {
+                if let Some([ro, rs, so, ss]) = self.mailbox_expect {
+                    let recv = self.mailbox_sm(1).map(|(_, start, len)| (start, len));
+                    let send = self.mailbox_sm(0).map(|(_, start, len)| (start, len));
+                    if recv != Some((ro, rs)) || send != Some((so, ss)) {
+                        return AlOutcome::Refused(0x0016);
+                    }
+                }
             }
             AlOutcome::Accepted
         })();
